@@ -1146,6 +1146,23 @@ Stylesheet::findTemplateInImports(
 
 
 
+// A pattern with alternatives has an entry for each alternative, with the
+// default priority of that alternative, but the entry can only be matched
+// through the entire pattern.  If the template has no explicit priority, the
+// entry applies only if the best alternative that matches the node has the
+// priority of the entry.  Otherwise, "* | p:*" would give an element in
+// no namespace the priority of "p:*".
+inline bool
+isMatchForAlternative(
+            const XalanMatchPatternData&    theMatchPattern,
+            XPath::eMatchScore              theScore)
+{
+    return theMatchPattern.getTemplate()->getPriority() != XPath::getMatchScoreValue(XPath::eMatchScoreNone) ||
+           theScore == theMatchPattern.getDefaultPriority();
+}
+
+
+
 const ElemTemplate*
 Stylesheet::findTemplate(
             StylesheetExecutionContext&     executionContext,
@@ -1210,7 +1227,8 @@ Stylesheet::findTemplate(
                     XPath::eMatchScore  score =
                                 xpath->getMatchScore(targetNode, *this, executionContext);
 
-                    if(XPath::eMatchScoreNone != score)
+                    if(XPath::eMatchScoreNone != score &&
+                       isMatchForAlternative(*matchPat, score) == true)
                     {
                         bestMatchedRule = rule;
 
@@ -1298,7 +1316,8 @@ Stylesheet::findTemplate(
                             XPath::eMatchScore  score =
                                         xpath->getMatchScore(targetNode, *this, executionContext);
 
-                            if(XPath::eMatchScoreNone != score)
+                            if(XPath::eMatchScoreNone != score &&
+                               isMatchForAlternative(*matchPat, score) == true)
                             {
                                 const double priorityVal = rule->getPriority();
                                 const double priorityOfRule 
